@@ -157,3 +157,40 @@ pub fn is_simple_cycle(var: Variant, edges: &[Edge]) -> bool {
 	let idx = Index::new(var, e);
 	!idx.cycles(k, 1, true).is_empty()
 }
+
+/// SCHEDULING AID ONLY (never used as a verdict): in the directed bipartite variant, following
+/// "the unique edge that points at my tail" from the lowest even edge may enter a directed cycle
+/// that does not contain the starting edge. The real verifier was observed not to return on such
+/// tuples, so the exhaustive pass runs them last, under a budget (see run::run_jobs).
+pub fn walk_may_not_return(var: Variant, edges: &[Edge]) -> bool {
+	if var != Variant::Cuckarood {
+		return false;
+	}
+	let start = match edges.iter().position(|e| e.nonce & 1 == 0) {
+		Some(i) => i,
+		None => return false,
+	};
+	let mut cur = start;
+	for _ in 0..=edges.len() {
+		let (tail, _) = ports(var, &edges[cur]);
+		let mut pred = None;
+		for (i, f) in edges.iter().enumerate() {
+			if i != cur && ports(var, f).1 == tail {
+				if pred.is_some() {
+					return false;
+				}
+				pred = Some(i);
+			}
+		}
+		match pred {
+			None => return false,
+			Some(p) => {
+				if p == start {
+					return false;
+				}
+				cur = p;
+			}
+		}
+	}
+	true
+}
